@@ -179,13 +179,13 @@ def build_weechess(profile="release"):
 # ------------------------------------------------------------------------------------------------
 # correspondence
 
-def run_lines(exe, lines, timeout=3600, per_request_timeout=None):
+def run_lines(exe, lines, timeout=3600, per_request_timeout=None, env=None):
     """one process for the whole batch; if it hangs or dies, the unanswered requests are re-run one
     by one (each with its own time limit) so that the culprit is identified: `<hang>` / `<died>`"""
     cmd = [exe] if isinstance(exe, str) else exe
     inp = "\n".join(lines) + "\n"
     try:
-        p = subprocess.run(cmd, input=inp, capture_output=True, text=True, env=ENV, timeout=timeout)
+        p = subprocess.run(cmd, input=inp, capture_output=True, text=True, env=dict(ENV, **(env or {})), timeout=timeout)
         out, rc, err = p.stdout, p.returncode, p.stderr
     except subprocess.TimeoutExpired as e:
         out = e.stdout.decode() if isinstance(e.stdout, bytes) else (e.stdout or "")
@@ -194,7 +194,7 @@ def run_lines(exe, lines, timeout=3600, per_request_timeout=None):
     if len(res) < len(lines) and per_request_timeout:
         for r in lines[len(res):]:
             try:
-                p = subprocess.run(cmd, input=r + "\n", capture_output=True, text=True, env=ENV, timeout=per_request_timeout)
+                p = subprocess.run(cmd, input=r + "\n", capture_output=True, text=True, env=dict(ENV, **(env or {})), timeout=per_request_timeout)
                 o = p.stdout.strip("\n")
                 res.append(o if o else "<died>")
             except subprocess.TimeoutExpired:
